@@ -405,7 +405,7 @@ where
     };
     Scenario {
         name: p.name.to_string(),
-        opts: Opts { stale_reads: false, stale_depth: 2, max_spurious: 0, horizon: 60_000, log_ops: false, log_handler_ops: true, reduce: true, no_discipline: false, nest_value_t1: if E::RAW { 0x900 } else { 0 }, post_points: E::RAW },
+        opts: Opts { stale_reads: false, stale_depth: 2, max_spurious: 0, horizon: 60_000, log_ops: false, log_handler_ops: true, reduce: true, no_discipline: false, nest_value_t1: if E::RAW { 0x900 } else { 0 }, post_points: E::RAW, no_race_check: false, start_points: false },
         signals: vec![S1, S2],
         setup: Box::new(setup),
         threads,
@@ -565,6 +565,15 @@ pub fn scenarios(prop: &str, tier: Tier) -> Vec<Item> {
             p.deliverers = vec![vec![S1], vec![S2]];
             p.adders = vec![S2];
             v.push(item(build::<SignalOnly>(p), b(1, 2), "add_signal(S2) from another thread vs deliveries of S1 and S2"));
+            let mut p = ip("sigonly_forever_readd_watched", prop, Mode::Forever);
+            p.deliverers = vec![vec![S1, S1]];
+            p.adders = vec![S1];
+            v.push(item(build::<SignalOnly>(p), b(1, 2), "add_signal of an already watched signal (a no-op) from another thread vs its deliveries"));
+            let mut p = ip("raw_wait_readd_watched", prop, Mode::Wait);
+            p.deliverers = vec![vec![S1, S1]];
+            p.adders = vec![S1];
+            p.match_values = true;
+            v.push(item(build::<WithRawSiginfo>(p), b(1, 2), "the same with the info-carrying exfiltrator"));
             for (mode, mname) in [(Mode::Wait, "wait"), (Mode::Poll, "poll")] {
                 let mut p = ip(Box::leak(format!("raw_{}_2d", mname).into_boxed_str()), prop, mode);
                 p.initial = vec![S1, S1]; // a signal listed twice is watched once
